@@ -26,7 +26,7 @@ UNITS = [
     U("C15.ec_commit", ["C15"], "harness/C15/ec_commit.c", "h_ec_commit", defs=["UNIT_POINT"], replace=HASH + ["secp256k1_ecmult", "secp256k1_ge_set_gej"],
       assumed=["secp256k1_ecmult", "secp256k1_ge_set_gej"], unwind=66,
       functions=["secp256k1_ec_commit", "secp256k1_ec_commit_tweak", "secp256k1_ec_pubkey_tweak_add_helper", "secp256k1_eckey_pubkey_tweak_add", "secp256k1_gej_set_ge"],
-      timeout=600, min_obl=1824, replay=False),
+      timeout=600, min_obl=1826, replay=False),
     U("C15.verify_commit", ["C15"], "harness/C15/verify_commit.c", "h_verify_commit", replace=["secp256k1_ec_commit"],
       functions=["secp256k1_ecdsa_s2c_verify_commit", "secp256k1_ecdsa_s2c_opening_load", "secp256k1_pubkey_load", "secp256k1_s2c_ecdsa_point_sha256_tagged",
                  "secp256k1_ecdsa_signature_load", "secp256k1_fe_normalize", "secp256k1_fe_get_b32", "secp256k1_scalar_set_b32", "secp256k1_scalar_eq"],
@@ -43,13 +43,13 @@ UNITS = [
       loop_contracts=SIGN_LOOP_S2C, closed_by="loop contract on the nonce retry loop (engine-supplied --loop-contracts-file, no /repo edit); partial correctness, termination not claimed",
       functions=["secp256k1_ecdsa_s2c_sign", "secp256k1_anti_exfil_sign", "secp256k1_ecdsa_sign_inner", "secp256k1_s2c_ecdsa_data_sha256_tagged", "secp256k1_s2c_ecdsa_point_sha256_tagged",
                  "secp256k1_ecdsa_s2c_opening_save", "secp256k1_scalar_set_b32_seckey", "secp256k1_ecdsa_signature_save"],
-      timeout=1800, min_obl=1829, replay=False,
+      timeout=1800, min_obl=1925, replay=False,
       note="full argument space (every pointer NULL or object, built or unbuilt context, anti_exfil_sign entry); measured 110-150 s of cbmc on a loaded machine - kept in the quick tier because it is the central C15 wiring unit"),
     U("C15.signer_commit", ["C15"], "harness/C15/signer_commit.c", "h_signer_commit", replace=["nonce_function_rfc6979_impl"] + GEN, assumed=GEN,
       extra_instrument=[["--remove-function-pointers"]],   # cbmc 6.11: a call through the const function pointer secp256k1_nonce_function_default inside the loop hides the loop from --loop-contracts-file
       loop_contracts=SIGNER_LOOP, closed_by="loop contract on the nonce loop (engine-supplied, no /repo edit): attempt counter == number of RFC 6979 calls, and an accepted k is a non-zero reduced scalar equal to the last RFC 6979 output; partial correctness",
       functions=["secp256k1_ecdsa_anti_exfil_signer_commit", "nonce_function_rfc6979", "secp256k1_scalar_set_b32_seckey", "secp256k1_ecdsa_s2c_opening_save"],
-      timeout=900, min_obl=871, replay=False),
+      timeout=900, min_obl=996, replay=False),
     U("C15.opening_codec", ["C15"], "harness/C15/opening_codec.c", "h_opening_codec", replace=["secp256k1_ec_pubkey_parse", "secp256k1_ec_pubkey_serialize"],
       functions=["secp256k1_ecdsa_s2c_opening_parse", "secp256k1_ecdsa_s2c_opening_serialize"], timeout=300, min_obl=191, replay=False,
       note="pass-through lemma: the opening codec is the compressed public-key codec, whose specification is proved by the C03 pubkey units"),
